@@ -24,3 +24,13 @@ func Kitchen() *Schema {
 	s.Add(&TypeDef{Kind: KObject, Name: "Subscription", Fields: []*FieldDef{F("s:O"), F("t:String")}})
 	return s
 }
+
+// KitchenCovariant is Kitchen plus a covariant interface field (I.p: I implemented by
+// O.p: O), which makes schema construction itself consult the possible-type table.
+func KitchenCovariant() *Schema {
+	s := Kitchen()
+	s.Types["I"].Fields = append(s.Types["I"].Fields, F("p:I"))
+	s.Types["O"].Fields = append(s.Types["O"].Fields, F("p:O"))
+	s.Types["P"].Fields = append(s.Types["P"].Fields, F("p:I"))
+	return s
+}
